@@ -1,5 +1,6 @@
 import AFDriver.Wire
 import AFModel.EP
+import AFModel.EPPlate
 
 /-! Driver for C18: decodes a declarative graph, user priors and a sequence of factor updates, runs
 `AF.EP.Decl.init`, `AF.EP.run`, `AF.EP.latest`. Natural parameters arrive as 16-hex-digit doubles
@@ -94,6 +95,151 @@ def jsonOfDeltaAt (δ : Delta) (vars : List Nat) : Json :=
     | some d => jsonOfRat d
     | none => Json.null])).toArray
 
+/-! ### array-valued messages, plates, batches (`q = "plate"`) -/
+
+abbrev ArrE := Nat → Eta
+
+/-- an array held in memory as a function -/
+@[noinline] def ofArr (es : Array Eta) : ArrE := fun i => es.getD i (0, 0)
+
+/-- `[[h, h], …]`: one pair of natural parameters per element -/
+def arrOfJson (j : Json) : Except String ArrE := do
+  let es ← (← j.getArr?).mapM etaOfJson
+  pure (ofArr es)
+
+def jsonOfArr (n : Nat) (a : ArrE) : Json := Json.arr ((List.range n).map (fun i => jsonOfEta (a i))).toArray
+
+def afieldOfJson (j : Json) : Except String (Field ArrE) := do
+  (← j.getArr?).toList.mapM fun e => do
+    let p ← e.getArr?
+    if p.size != 2 then throw "bad field entry"
+    pure ((← p[0]!.getNat?), (← arrOfJson p[1]!))
+
+def astateOfJson (j : Json) : Except String (State ArrE) := do
+  (← j.getArr?).toList.mapM fun e => do
+    let p ← e.getArr?
+    if p.size != 2 then throw "bad state entry"
+    pure ((← p[0]!.getNat?), (← afieldOfJson p[1]!))
+
+/-- evaluate the first `size v` entries of every message once (the model's arrays are functions; the
+strict `let` makes the evaluation happen here and not at every later read) -/
+def freezeField (size : Nat → Nat) (q : Field ArrE) : Field ArrE :=
+  q.map (fun p =>
+    let es := ((List.range (size p.1)).map p.2).toArray
+    (p.1, ofArr es))
+
+/-- the current mean field of every factor, evaluated (shadowed entries dropped) -/
+def freezeState (size : Nat → Nat) (fs : List Nat) (s : State ArrE) : State ArrE :=
+  fs.map (fun f => (f, freezeField size (s.field f)))
+
+def jsonOfAField (size : Nat → Nat) (vars : List Nat) (m : Nat → Option ArrE) : Json :=
+  Json.arr (vars.filterMap (fun v => (m v).map (fun a => Json.arr #[natJ v, jsonOfArr (size v) a]))).toArray
+
+def jsonOfAState (size : Nat → Nat) (fs vars : List Nat) (s : State ArrE) : Json :=
+  Json.arr (fs.map (fun f => Json.arr #[natJ f, jsonOfAField size vars (s.get f)])).toArray
+
+def natPairs (j : Json) : Except String (List (Nat × List Nat)) := do
+  (← j.getArr?).toList.mapM fun e => do
+    let p ← e.getArr?
+    if p.size != 2 then throw "bad pair"
+    pure ((← p[0]!.getNat?), (← (← p[1]!.getArr?).toList.mapM (·.getNat?)))
+
+structure PStep where
+  f : Nat
+  q : Field ArrE
+  d : Rat
+  success : Bool
+
+def pstepOfJson (j : Json) : Except String PStep := do
+  pure { f := (← getNat j "f"), q := (← afieldOfJson (← j.getObjVal? "q")),
+         d := (← ratOfJson (← j.getObjVal? "d")), success := (getBool j "success").toOption.getD true }
+
+def jsonOfStep (size : Nat → Nat) (fs vars : List Nat) (a : Approx ArrE) (s' : State ArrE) (f : Nat)
+    (success bad : Bool) : Json :=
+  Json.mkObj [
+    ("f", natJ f),
+    ("cav", jsonOfAField size vars a.cavity),
+    ("old", jsonOfAField size vars a.old),
+    ("model", jsonOfAField size vars a.model),
+    ("new", jsonOfAField size vars (s'.get f)),
+    ("global", jsonOfAField size vars (globalOpt fs s')),
+    ("success", success), ("bad", bad)]
+
+/-- `q = "plate"`: a graph given by scopes over plate variables, a state of array-valued messages,
+whole-array projections and batches (subset → projections → merge) -/
+def handlePlate (j : Json) : Except String Json := do
+  let psz ← natPairs (← j.getObjVal? "plates") -- [[p, [size]]]
+  let dimsL ← natPairs (← j.getObjVal? "vars") -- [[v, [p…]]]
+  let scopes ← natPairs (← j.getObjVal? "factors") -- [[f, [v…]]]
+  let P : Plates := {
+    dims := fun v => (lookup dimsL v).getD []
+    psize := fun p => ((lookup psz p).getD [1]).headD 1 }
+  let fs := scopes.map (·.1)
+  let vars := dimsL.map (·.1)
+  let scope : Nat → List Nat := fun f => (lookup scopes f).getD []
+  let s0 ← astateOfJson (← j.getObjVal? "state")
+  let opsJ ← getArr j "ops"
+  let mut cur : State ArrE := freezeState P.size fs s0
+  let mut outs : Array Json := #[]
+  for oj in opsJ do
+    let k ← getStr oj "k"
+    if k == "proj" then
+      let st ← pstepOfJson oj
+      let a := approx fs cur st.f
+      let δ : Delta := .scalar st.d
+      let ok := allValidArr validNormal P.size a st.q δ
+      let nxt := freezeState P.size fs (projectArr validNormal cur a st.q δ)
+      outs := outs.push (jsonOfStep P.size fs vars a nxt st.f (st.success && ok) (!ok))
+      cur := nxt
+    else
+      let ix ← natPairs (← oj.getObjVal? "index")
+      let ssize : Nat → Nat := subLen P ix
+      let scale : Nat → Nat → Rat := fun f => rescaleOf P ix (scope f)
+      let sub0 := freezeState ssize fs (subsetState P ix cur)
+      let mut sub := sub0
+      let mut stepsJ : Array Json := #[]
+      for sj in (← getArr oj "steps") do
+        let st ← pstepOfJson sj
+        let a := subApprox fs sub (scale st.f) st.f
+        let ok := subAllValidArr validNormal ssize sub (scale st.f) a st.q st.d
+        let nxt := freezeState ssize fs (subProjectArr validNormal sub (scale st.f) a st.q st.d)
+        stepsJ := stepsJ.push (jsonOfStep ssize fs vars a nxt st.f (st.success && ok) (!ok))
+        sub := nxt
+      let merged := freezeState P.size fs (mergeState P ix fs cur sub)
+      outs := outs.push (Json.mkObj [
+        ("sub", jsonOfAState ssize fs vars sub0),
+        ("rescale", Json.arr (fs.map (fun f => Json.arr #[natJ f,
+          Json.arr ((scope f).map (fun v => Json.arr #[natJ v, jsonOfRat (scale f v)])).toArray])).toArray),
+        ("steps", Json.arr stepsJ),
+        ("merged", jsonOfAState P.size fs vars merged),
+        ("merged_global", jsonOfAField P.size vars (globalOpt fs merged))])
+      cur := merged
+  pure (Json.mkObj [
+    ("init_global", jsonOfAField P.size vars (globalOpt fs (freezeState P.size fs s0))),
+    ("ops", Json.arr outs),
+    ("final", jsonOfAState P.size fs vars cur)])
+
+/-- `q = "lognorm"`: the `log_norm` of every factor's stored mean field after a sequence of updates
+and `log_evidence` from given variable evidences -/
+def handleLogNorm (j : Json) : Except String Json := do
+  let scopes ← natPairs (← j.getObjVal? "factors")
+  let fs := scopes.map (·.1)
+  let scope : Nat → List Nat := fun f => (lookup scopes f).getD []
+  let ups ← (← getArr j "updates").toList.mapM fun e => do
+    let p ← e.getArr?
+    if p.size != 2 then throw "bad update"
+    pure ((← p[0]!.getNat?), (← ratOfJson p[1]!))
+  let zs ← (← getArr j "z").toList.mapM fun e => do
+    let p ← e.getArr?
+    if p.size != 2 then throw "bad evidence"
+    pure ((← p[0]!.getNat?), (← ratOfJson p[1]!))
+  let ln := logNormsAfter fs ups
+  let lnf : Nat → Rat := fun f => (lookup ln f).getD 0
+  let z : Nat → Rat := fun v => (lookup zs v).getD 0
+  pure (Json.mkObj [
+    ("log_norms", Json.arr (ln.map (fun p => Json.arr #[natJ p.1, jsonOfRat p.2])).toArray),
+    ("log_evidence", jsonOfRat (logEvidence fs scope (zs.map (·.1)) lnf z))])
+
 end AF.Driver.EPWire
 
 namespace AF.Driver
@@ -105,7 +251,9 @@ def handleC18 (j : Json) : Except String Json := do
   let cfg : Cfg := {
     countPerFactor := (getBool cfgJ "countPerFactor").toOption.getD true
     latestIsLast := (getBool cfgJ "latestIsLast").toOption.getD true }
-  if q == "hist" then
+  if q == "plate" then handlePlate j
+  else if q == "lognorm" then handleLogNorm j
+  else if q == "hist" then
     let entries ← (← getArr j "entries").toList.mapM fun e => do
       let p ← e.getArr?
       if p.size != 2 then throw "bad history entry"
